@@ -895,18 +895,23 @@ impl Meta {
     }
   }
 
+  // Both functions align inside the accessible part `[ptr_offset, ptr_offset + ptr_size)`. For memory
+  // taken from the bump cursor that is the whole extent; for memory taken from a free-list segment it
+  // starts after the segment's node word, which must never become user memory: other threads may
+  // still be reading (or compare-exchanging) that word.
   #[inline]
   fn align_to<T>(&mut self) {
-    let align_offset = align_offset::<T>(self.memory_offset);
+    let align_offset = align_offset::<T>(self.ptr_offset);
     self.ptr_offset = align_offset;
     self.ptr_size = mem::size_of::<T>() as u32;
   }
 
   #[inline]
   fn align_bytes_to<T>(&mut self) {
-    let align_offset = align_offset::<T>(self.memory_offset);
+    let end = self.ptr_offset + self.ptr_size;
+    let align_offset = align_offset::<T>(self.ptr_offset);
     self.ptr_offset = align_offset;
-    self.ptr_size = self.memory_offset + self.memory_size - self.ptr_offset;
+    self.ptr_size = end - align_offset;
   }
 }
 
